@@ -187,6 +187,52 @@ def py_den(spec) -> dict[int, dict[str, Any]]:
 DEFAULT_FEATURES = {"tf": 5, "scatter": 3, "gather": 4, "dot": 2, "cart": 1, "cond": 2, "exec": 0, "loop": 0}
 
 
+# boundary workflows that every check runs first (index >= 10, empty scatter, broadcast, products, loop in a scatter)
+L12 = [3, 1, 4, 1, 5, 9, 2, 6, 5, 3, 5, 8]
+CORPUS = [
+    {"nports": 5, "sources": [{"port": 0, "value": L12}], "closed": [], "nodes": [
+        {"id": 0, "kind": "scatter", "ins": [0], "outs": [1, 2]},
+        {"id": 1, "kind": "tf", "ins": [1], "outs": [3], "fn": "add", "k": 1},
+        {"id": 2, "kind": "gather", "ins": [3, 2], "outs": [4], "depth": 1}]},
+    {"nports": 6, "sources": [{"port": 0, "value": L12}], "closed": [], "nodes": [
+        {"id": 0, "kind": "scatter", "ins": [0], "outs": [1, 2]},
+        {"id": 1, "kind": "exec", "ins": [1], "outs": [3], "k": 2},
+        {"id": 2, "kind": "tf", "ins": [3, 1], "outs": [4], "fn": "lin", "k": 0},
+        {"id": 3, "kind": "gather", "ins": [4, 2], "outs": [5], "depth": 1}]},
+    {"nports": 4, "sources": [{"port": 0, "value": []}], "closed": [], "nodes": [
+        {"id": 0, "kind": "scatter", "ins": [0], "outs": [1, 2]},
+        {"id": 1, "kind": "gather", "ins": [1, 2], "outs": [3], "depth": 1}]},
+    {"nports": 9, "sources": [{"port": 0, "value": [1, 2, 3]}, {"port": 1, "value": 7}], "closed": [], "nodes": [
+        {"id": 0, "kind": "scatter", "ins": [0], "outs": [2, 3]},
+        {"id": 1, "kind": "dot", "ins": [1, 2], "outs": [4, 5]},
+        {"id": 2, "kind": "tf", "ins": [4, 5], "outs": [6], "fn": "lin", "k": 1},
+        {"id": 3, "kind": "cond", "ins": [6], "outs": [7], "m": 2, "r": 0, "mode": "drop"},
+        {"id": 4, "kind": "gather", "ins": [7, 3], "outs": [8], "depth": 1}]},
+    {"nports": 11, "sources": [{"port": 0, "value": [1, 2]}, {"port": 1, "value": [10, 20, 30]}], "closed": [9], "nodes": [
+        {"id": 0, "kind": "scatter", "ins": [0], "outs": [2, 3]},
+        {"id": 1, "kind": "scatter", "ins": [1], "outs": [4, 5]},
+        {"id": 2, "kind": "cart", "ins": [2, 4], "outs": [6, 7]},
+        {"id": 3, "kind": "tf", "ins": [6, 7], "outs": [8], "fn": "lin", "k": 0},
+        {"id": 4, "kind": "gather", "ins": [8, 9], "outs": [10], "depth": 2}]},
+    # parent-tag broadcast with more than 10 parents: 0.1 is a parent of 0.1.j but not of 0.10.j / 0.11.j
+    # (the parents come out of jobs, i.e. in a schedule-dependent order)
+    {"nports": 11, "sources": [{"port": 0, "value": L12}], "closed": [], "nodes": [
+        {"id": 0, "kind": "scatter", "ins": [0], "outs": [1, 2]},
+        {"id": 1, "kind": "tf", "ins": [1], "outs": [3], "fn": "range", "k": 3},
+        {"id": 2, "kind": "scatter", "ins": [3], "outs": [4, 5]},
+        {"id": 3, "kind": "exec", "ins": [1], "outs": [10], "k": 1},
+        {"id": 4, "kind": "dot", "ins": [10, 4], "outs": [6, 7]},
+        {"id": 5, "kind": "tf", "ins": [6, 7], "outs": [8], "fn": "lin", "k": 0},
+        {"id": 6, "kind": "gather", "ins": [8, 5], "outs": [9], "depth": 1}]},
+    {"nports": 7, "sources": [{"port": 0, "value": [2, 7, 4]}], "closed": [], "nodes": [
+        {"id": 0, "kind": "scatter", "ins": [0], "outs": [1, 2]},
+        {"id": 1, "kind": "tf", "ins": [1], "outs": [3], "fn": "add", "k": 3},
+        {"id": 2, "kind": "loop", "ins": [1, 3], "outs": [4], "k": 2},
+        {"id": 3, "kind": "gather", "ins": [4, 2], "outs": [5], "depth": 1},
+        {"id": 4, "kind": "tf", "ins": [5], "outs": [6], "fn": "sum", "k": 0}]},
+]
+
+
 def _type_list(t):
     return ("L", t)
 
@@ -225,7 +271,9 @@ def _gen_once(rng, size, feat):
         if rng.random() < 0.5:
             v, t = rng.randint(0, 9), "I"
         else:
-            v, t = [rng.randint(0, 9) for _ in range(rng.choice([0, 1, 2, 2, 3, 3, 4]))], _type_list("I")
+            # now and then a list with more than 10 elements: tags 0.10, 0.11 must sort after 0.9 (numeric, not textual)
+            n_el = rng.choice([11, 12, 13]) if rng.random() < 0.08 else rng.choice([0, 1, 2, 2, 3, 3, 4])
+            v, t = [rng.randint(0, 9) for _ in range(n_el)], _type_list("I")
         spec["sources"].append({"port": new_port(t, ("r",)), "value": v})
     kinds = [k for k, w in feat.items() for _ in range(w)]
 
@@ -444,7 +492,7 @@ def choose_failure(rng: random.Random, spec: dict, escape_prob: float = 0.3, loo
     feeds_loop = _upstream_of_loops(spec)
     rare = [c for c in cands if c[0] in feeds_loop]
     common = [c for c in cands if c[0] not in feeds_loop]
-    cands = rare if (rare and (not common or rng.random() < loop_upstream_prob)) else common
+    cands = rare if (rare and loop_upstream_prob > 0 and (not common or rng.random() < loop_upstream_prob)) else common
     if not cands:
         return None
     nid, tag = rng.choice(cands)
